@@ -314,6 +314,16 @@ def r_transform_args(ck: Checker) -> None:
     ck.guard("A5 only variables that are not head arguments are renamed fresh", tr, mk[0], f"{v} not in orig2passed", "")  # type: ignore[arg-type]
     d = single_def(func, "orig2passed")
     ck.add("head arguments are replaced by the passed arguments position-wise", d is not None and unparse(d).replace(" ", "") == f"dict(zip({func.params()[0]},{func.params()[1]}))", func, func.node, f"orig2passed = `{unparse(d) if d is not None else None}`", "")
+    # EVERY node handed in goes through the renaming (variables of the helper that are not head arguments must be renamed
+    # away from the variables of the using statement, also when the head arguments happen to be passed under their own names)
+    rets_t = [r for r in returns_of(func) if r.value is not None]
+    ck.need(len(rets_t) >= 1, "transform_args returns the transformed list")
+    asts_p = func.params()[2]
+    for r in rets_t:
+        d_r = single_def(func, unparse(r.value)) if isinstance(r.value, ast.Name) else r.value
+        okr = d_r is not None and same(unparse(d_r), f"[transform_ast(x, 'Variable', trans) for x in {asts_p}]")
+        ck.add("every answer of transform_args is the list with ALL nodes renamed", okr, func, r, f"`{short(unparse(r), 60)}` = `{short(unparse(d_r), 90) if d_r is not None else None}`",
+               "returning the nodes as they are when the use site passes exactly the head variables leaves the helper's other variables un-renamed: a local of the helper is captured by a global variable of the user")
     # one renaming per unfolded element: everything that comes from the helper rule and shares its variables (tuple,
     # condition, rest of the helper body) goes through ONE transform_args call, which keeps one rename map
     cb = ck.func(f"{CLS}.compute_new_body_elements")
